@@ -236,5 +236,10 @@ def check_config(ctx, F, tag, cfg):
         fs = facts_at(rb, bi)
         if m(single, t):
             g = any(fc[0] == "cmp" and fc[1] == "Le" and m(Bin("Add", off, Param(2)), fc[2]) and m(Const(64), fc[3]) for fc in fs)
+            if not g:
+                # the same test with terms moved across (`width <= 64 - offset`)
+                from guards import fact_linear_le
+                offs = [x for x in subterms(t) if m(off, x)]
+                g = bool(offs) and fact_linear_le(fs, ("bin", "Add", offs[0], ("param", 2, rb.local_name(3))), ("const", 64))
             ctx.ob("C17.R4.read-int-branch", "bits::read_int|single" + tag, loc(st["sp"]), g, "guard-dominance", "single-word read only when offset + width <= 64: %s" % g)
     c05.check_write_int(ctx, F, tag, prefix="C17.R4")
